@@ -1742,6 +1742,7 @@ func runC13(c *Ctx, r *Report) {
 	c13PerListener(c, r, "C13.R13")
 	c13R6(c, r, "C13.R6")
 	c13R10(c, r, "C13.R10")
+	c02R6(c, r, "C13.R15") // a subroute in the wrapper's routes falls through to this connection's hand-off: its routes are compiled per connection with the handler's own next
 	c01R1(c, r, "C13.R14") // ... and every matcher of a set is bracketed by its own freeze/unfreeze: the cursor is back at the first unconsumed byte when the hand-off runs
 	c01R2(c, r, "C13.R9")  // what the consumer of the wrapped listener reads starts at the first unconsumed byte: freeze/unfreeze restore exactly the cursor
 	c05R23(c, r, "C13.R8") // the hand-off is a fallback: it must run with the matching deadline cleared, or the consumer's reads time out
